@@ -465,7 +465,7 @@ pub fn run_c18(tier: &str, seed: u64, shard: u64, nshards: u64, scale: f64, stat
     }
     // (3) exhaustive byte strings
     let alpha: [u8; 10] = [0x00, 0x0A, 0x20, 0x2D, 0x41, 0x80, 0xC3, 0xE4, 0xFE, 0xFF];
-    let l: u32 = if thorough { 6 } else if miri { 2 } else { 5 };
+    let l: u32 = if thorough { 7 } else if miri { 2 } else { 5 };
     let k = alpha.len() as u64;
     let total: u64 = (0..=l).map(|i| k.pow(i)).sum();
     let mut idx = shard;
